@@ -5,7 +5,7 @@
    count, bystanders intact, structure and accounting intact, refill to the same capacity - is decided per explored
    history: real exhaustion with 0..5 blocks left and forced refusal of the j-th request of a call (checks/c08.py). *)
 From Coq Require Import ZArith List Bool.
-From ADF Require Import CPrelude Generated.Layout Generated.Leaf Model.Bitmap Proofs.BitmapP Spec.FsSpec Model.FileIO Proofs.FileIOL Proofs.FileIOP.
+From ADF Require Import CPrelude Generated.Layout Generated.Leaf Model.Bitmap Proofs.BitmapP Proofs.AllocCountP Spec.FsSpec Model.FileIO Proofs.FileIOL Proofs.FileIOP.
 Import ListNotations.
 Local Open Scope Z_scope.
 
@@ -33,7 +33,14 @@ Theorem C08_short_write_is_exact : forall bs ofs key, 0 < bs -> forall s L E ct 
     /\ (w = len data -> al_ok key L' E' al') /\ (w < len data -> exists r, al = r ++ None :: al' \/ (al' = [] /\ True)).
 Proof. exact fio_write_ok. Qed.
 
+(* in the terms a user sees: adfGetFreeBlocks(want) is refused exactly when adfCountFreeBlocks reports fewer than want free blocks
+   (the circular scan from the root visits every block of the volume exactly once) *)
+Theorem C08_refused_iff_count_too_small : forall b root last want, 2 < root <= last ->
+  (get_free_blocks b root last want = None <-> count_free b last < Z.of_nat want).
+Proof. exact alloc_refused_iff. Qed.
+
 Print Assumptions C08_refusal_is_exhaustion.
+Print Assumptions C08_refused_iff_count_too_small.
 Print Assumptions C08_refused_write_changes_nothing.
 Print Assumptions C08_short_write_is_exact.
 Print Assumptions C08_refusal_changes_nothing.
